@@ -3,7 +3,7 @@
    granularity of the scheduling hook points). All theorems quantify over every program list, every
    initial buffering mode and pending buffer, and EVERY schedule (list of task ids of any length). *)
 From Coq Require Import List NArith.
-From AnyTLS Require Import Bytes Cmd Generated FactsConc Frame Conc ConcInv ConcLin ConcOrder.
+From AnyTLS Require Import Bytes Cmd Generated FactsConc Frame Conc ConcInv ConcLin ConcOrder ConcPump.
 Import ListNotations.
 
 (* writer-lock discipline in every reachable state: the holder is exactly the task inside its
@@ -80,6 +80,21 @@ Proof.
 Qed.
 Print Assumptions C11_packet_order.
 
+(* the outbound data path of proxied streams (Stream::send_data -> unbounded channel -> forwarding task ->
+   write_data_frame): for every program list in which task p does nothing but run the forwarding loop and nobody
+   else runs it, every schedule, and as long as the session is open: what p has submitted to write_frame, then the
+   chunk it holds, then the channel are -- in this order -- exactly what the applications pushed. Nothing is dropped,
+   duplicated or reordered between the application and write_frame; with C11_task_order (p's submissions are, in order,
+   p's entries of the log) and C11_wire_is_log (the log is the wire) the chunks of one stream reach the wire in the
+   order the application wrote them. *)
+Theorem C11_forwarding_fifo : forall p progs buf pend sched,
+  p <> rtid -> only_pump (nth p progs []) -> (forall u, u <> p -> ~ In CPump (nth u progs [])) ->
+  let s := run (init progs buf pend) sched in
+  closed s = false ->
+  t_sub (tasks s p) ++ pre_hand (pcof s p) ++ map snd (dq s) = map snd (pushed s).
+Proof. intros p progs buf pend sched Hp. exact (pump_fifo p Hp progs buf pend sched). Qed.
+Print Assumptions C11_forwarding_fifo.
+
 (* non-vacuity: two openers racing on a fresh session with pre-emption in the middle of both opens *)
 Example C11_nonvacuous :
   let progs := [[]; [COpen; CDisableBuf; CData [1]]; [COpen; CDisableBuf; CData [2]]] in
@@ -90,3 +105,13 @@ Example C11_nonvacuous :
     [ {| fcmd := Settings; fsid := 0; fdata := [] |}; syn_frame 1; syn_frame 2;
       psh_frame 1 [1]; psh_frame 2 [2] ]%N /\ map fst (wire s) = [1; 2; 3]%N.
 Proof. vm_compute. repeat split; reflexivity. Qed.
+
+(* non-vacuity of the forwarding path: a sender opens a stream and pushes two chunks while the forwarding task is
+   pre-empted in the middle of writing the first; at the end both are on the wire in order, after the SYN *)
+Example C11_forwarding_nonvacuous :
+  let progs := [[]; [COpen; CDisableBuf; CSend [1]; CSend [2]]; [CPump; CPump; CPump; CPump]] in
+  let sched := [2;1;1;1;1;1;1;1;1;1;1;1;1;2;1;2;2;1;2;2;2;2;2;2;2;2;2;2;2;2;2]%nat in
+  let s := run (init progs true []) sched in
+  closed s = false /\ map snd (pushed s) = [psh_frame 1 [1]; psh_frame 1 [2]] /\
+  map snd (flat_wire s) = [syn_frame 1; psh_frame 1 [1]; psh_frame 1 [2]] /\ dq s = [].
+Proof. cbv zeta. repeat split; vm_compute; reflexivity. Qed.
